@@ -393,6 +393,7 @@ impl NodeId {
                     *arena == *old(arena),
                     links_ok(arena.nodes@),
                     ranked(arena.nodes@, w),
+                    // @ob C12.a_node_that_passes_the_removed_test_is_live C12 C05
                     arena.live(new_child),
                     anc_loop_inv(arena.nodes@, w, self.idx(), new_child.idx(), __vx_iter1.0.node, __vx_any2),
                 ensures
@@ -608,6 +609,7 @@ impl NodeId {
                     *arena == *old(arena),
                     links_ok(arena.nodes@),
                     ranked(arena.nodes@, w),
+                    // @ob C12.a_node_that_passes_the_removed_test_is_live C12 C05
                     arena.live(new_child),
                     anc_loop_inv(arena.nodes@, w, self.idx(), new_child.idx(), __vx_iter1.0.node, __vx_any2),
                 ensures
@@ -762,6 +764,7 @@ impl NodeId {
                     *arena == *old(arena),
                     links_ok(arena.nodes@),
                     ranked(arena.nodes@, w),
+                    // @ob C12.a_node_that_passes_the_removed_test_is_live C12 C05
                     arena.live(new_sibling),
                     anc_loop_inv(arena.nodes@, w, self.idx(), new_sibling.idx(), __vx_iter1.0.node, __vx_any2),
                 ensures
@@ -921,6 +924,7 @@ impl NodeId {
                     *arena == *old(arena),
                     links_ok(arena.nodes@),
                     ranked(arena.nodes@, w),
+                    // @ob C12.a_node_that_passes_the_removed_test_is_live C12 C05
                     arena.live(new_sibling),
                     anc_loop_inv(arena.nodes@, w, self.idx(), new_sibling.idx(), __vx_iter1.0.node, __vx_any2),
                 ensures
